@@ -263,7 +263,8 @@ impl Property for C11 {
         let it = l1.intersects(&l2);
         obs.expect(it == (want != Exact::None), "Line::intersects(Line)|disagrees-with-exact", || format!("intersects={it}; {}", ctx()));
         // order independence: swap the segments, reverse each
-        for (name, m1, m2) in [("swapped", l2, l1), ("p-reversed", Line::new(l1.end, l1.start), l2), ("q-reversed", l1, Line::new(l2.end, l2.start))] {
+        let (r1, r2) = (Line::new(l1.end, l1.start), Line::new(l2.end, l2.start));
+        for (name, m1, m2) in [("swapped", l2, l1), ("p-reversed", r1, l2), ("q-reversed", l1, r2), ("both-reversed", r1, r2), ("swapped+p-reversed", l2, r1), ("swapped+q-reversed", r2, l1), ("swapped+both-reversed", r2, r1)] {
             let g2 = match guard(std::panic::AssertUnwindSafe(|| line_intersection(m1, m2))) {
                 Ok(g) => g,
                 Err(p) => {
@@ -284,6 +285,15 @@ impl Property for C11 {
             };
             if !same {
                 obs.fail(format!("line_intersection|order-dependent|{name}"), format!("{:?} vs {:?}; {}", got, g2, ctx()));
+            }
+            // a proper point must be accurate in every operand order
+            if let (Some(LineIntersection::SinglePoint { intersection: y, is_proper: true }), Exact::Point { proper: true, .. }) = (&g2, &want) {
+                if sin > 2f64.powi(-20) {
+                    let t = true_crossing(a, b, cc, d);
+                    let maxabs = c.pts.iter().fold(0f64, |m, q| m.max(q.0.abs()).max(q.1.abs()));
+                    let tol = 16.0 * ulp(maxabs) / sin;
+                    obs.expect((y.x - t.0).abs() <= tol && (y.y - t.1).abs() <= tol, "line_intersection|proper-point-inaccurate", || format!("{name}: got {:?} true {:?} tol {tol}; {}", y, t, ctx()));
+                }
             }
         }
     }
